@@ -658,8 +658,8 @@ func (v *VecDense) MulVec(a Matrix, b Vector) {
 		}
 	case *TriDense:
 		if fast {
-			v.CopyVec(b)
 			aU.checkOverlap(v.asGeneral())
+			v.CopyVec(b)
 			ta := blas.NoTrans
 			if trans {
 				ta = blas.Trans
